@@ -281,3 +281,30 @@ def run(ctx):
                 else:
                     det.append('outputs: %s' % [t['callee'].split('::')[-1] for _, t in outs])
                 rep.check(r2, ok, key, '; '.join(det) or 'prolog(%s,%s,false) .. one newline-terminated print' % (p, ev), '%s:%d' % (f.file, f.line))
+
+    # R4: "the addresses and ports printed are those of the frame": ClientInfo is what the loggers print; its only
+    # rewrite after parsing (STUN change-port) must belong to an answer, otherwise drop events show a port the frame never had
+    r4 = rep.rule('C20-R4', 'ClientInfo (the source of every printed address/port) is rewritten by upper layers only on paths that produce a reply', floor=1)
+    st = F.fn('proto::stun::repl')
+    rep.saw(st)
+    rty_ = st.locals[0]['ty']
+    silent = [b2 for b2, blk2 in enumerate(st.blocks) if not blk2['cleanup'] and any(
+        s2['rv']['k'] == 'agg' and s2['rv'].get('adt') == 'std::option::Option' and s2['rv'].get('variant') == 'None' and not s2['lhs']['p'] and st.locals[s2['lhs']['l']]['ty'] == rty_ for s2 in blk2['stmts'])]
+    wr = []
+    for bi, blk in enumerate(st.blocks):
+        for s2 in blk['stmts']:
+            ch = [p for p in s2['lhs']['p'] if isinstance(p, dict) and p.get('adt', '').endswith('ClientInfo')]
+            if ch and not blk['cleanup']:
+                wr.append(bi)
+    bad = [b for b in wr for x in silent if x in st.reachable(b)]
+    rep.check(r4, bool(wr) and not bad, 'stun::repl:rewrite-only-when-answering', '%d rewrite site(s); silent returns reachable afterwards: %d' % (len(wr), len(bad)), st.loc(wr[0]) if wr else '')
+    # and no other function of the application layer writes ClientInfo (C03-R2 has the full table)
+    others = []
+    for fid in F.cone(['proto::repl']):
+        if fid == 'proto::stun::repl':
+            continue
+        g_ = F.fn(fid)
+        for (k, ch, bi, l, ty, dr) in field_accesses(g_):
+            if k in ('w', 'rw') and any(a.endswith('ClientInfo') for a, _ in ch):
+                others.append(fid)
+    rep.check(r4, not others, 'app-layer:no-other-rewrite', 'other application-layer writers of ClientInfo: %s' % sorted(set(others)))
